@@ -44,7 +44,7 @@ def caching_sites(fl, noncaching):
 
 
 def run(ck):
-    facts = ck.facts(["src/http.cc", "src/HttpRequest.cc", "src/client_side_request.cc", "src/store.cc"], whole=True)
+    facts = ck.facts(["src/http.cc", "src/HttpRequest.cc", "src/client_side_request.cc", "src/store.cc", "src/HttpHdrCc.cc"], whole=True)
     ans = facts.enum("HttpStateData::ReuseDecision::Answers")
     for k in ("reuseNot", "cachePositively", "cacheNegatively", "doNotCacheButShare"):
         ck.need(k in ans, "C11: ReuseDecision::%s vanished" % k)
@@ -68,32 +68,75 @@ def run(ck):
                      (E.m_is_mem("HttpStateData::ignoreCacheControl"), False)]
     auth = E.m_is_mem("RequestFlags::auth")
     auth_sent = E.m_is_mem("RequestFlags::authSent")
-    no_share = [(rcall("hasPublic"), False), (rcall("hasMustRevalidate"), False), (rcall("hasSMaxAge"), False), (rcall("hasNoCacheWithoutParameters"), False)]
+    flags = mayflags(ck, rr)
+    ck.need(flags, "C11: reusableReply has no constant-initialised flag local (mayStore idiom) any more; S4 needs re-deriving")
     scenarios = [
         ("S1.request-no-store", "the request carries Cache-Control: no-store",
-         [(req_set, True), (req_cc, True), (E.m_calls("HttpHdrCc::hasNoStore") & E.m_mentions(REQ), True)] + overrides_off),
-        ("S2.reply-no-store", "the reply carries Cache-Control: no-store", [(rep_cc, True), (rcall("hasNoStore"), True)] + overrides_off),
-        ("S3.reply-private", "the reply carries Cache-Control: private", [(rep_cc, True), (rcall("hasPrivate"), True)] + overrides_off),
-        ("S4.authenticated", "request->flags.auth and the reply has none of public/must-revalidate/s-maxage (nor no-cache)", [(req_set, True), (auth, True)] + no_share),
-        ("S4.authenticated", "request->flags.authSent and the reply has none of public/must-revalidate/s-maxage (nor no-cache)",
-         [(req_set, True), (auth, False), (auth_sent, True)] + no_share),
+         [(req_set, True), (req_cc, True), (E.m_calls("HttpHdrCc::hasNoStore") & E.m_mentions(REQ), True)] + overrides_off, None),
+        ("S2.reply-no-store", "the reply carries Cache-Control: no-store", [(rep_cc, True), (rcall("hasNoStore"), True)] + overrides_off, None),
+        ("S3.reply-private", "the reply carries Cache-Control: private", [(rep_cc, True), (rcall("hasPrivate"), True)] + overrides_off, None),
+        ("S4.authenticated", "request->flags.auth and no exemption sets %s" % "/".join(sorted(flags)), [(req_set, True), (auth, True)], flags),
+        ("S4.authenticated", "request->flags.authSent and no exemption sets %s" % "/".join(sorted(flags)), [(req_set, True), (auth, False), (auth_sent, True)], flags),
     ]
     ck.rule("S1-S4 UNREACH(HttpStateData::reusableReply): no decision.make(cachePositively|cacheNegatively)/constant caching return is reachable when "
             "(S1) request CC has no-store, (S2) reply CC has no-store, (S3) reply CC has private [refresh_pattern ignore-no-store/ignore-private and "
-            "Surrogate ignoreCacheControl cut], (S4) request->flags.auth or authSent with none of hasPublic/hasMustRevalidate/hasSMaxAge/hasNoCacheWithoutParameters")
+            "Surrogate ignoreCacheControl cut], (S4) request->flags.auth or authSent and every assignment to the exemption flag local(s) is read as false")
     base = ck.flow(rr, tracked=answer_locals)
     pos = caching_sites(base, noncaching)
     ck.need(len(pos) >= 3, "C11: expected >= 3 caching decisions in reusableReply, found %d" % len(pos))
-    for rule, text, assume in scenarios:
+    for rule, text, assume, frozen in scenarios:
         for m, v in assume:  # every scenario atom must still be tested by the function, else the scenario is not expressible
             ck.need(ck.trigger_edges(rr, m, v), "C11: reusableReply no longer tests %s (scenario %s)" % (m.desc, rule))
-        fl = ck.flow(rr, tracked=answer_locals | mayflags(ck, rr), assume=assume)
+        kw = {"classify": (lambda d, rhs, env, frozen=frozen: ("c", 0) if d in frozen else None)} if frozen else {}
+        fl = ck.flow(rr, tracked=answer_locals | flags, assume=assume, **kw)
         bad = caching_sites(fl, noncaching)
         if not bad:
             ck.ok(rule, rr.where(), "reusableReply: no caching decision reachable when %s" % text)
         for s in bad:
             ck.violation(rule, "%s|reusableReply|caching-decision-reachable" % rule, s.where(),
                          "reusableReply: '%s' is reachable although %s (the response would be stored and served to later requests)" % (s.desc()[:90], text), fl.witness(s))
+
+    ck.rule("S4x EXACT(HttpStateData::reusableReply): every assignment of a non-false value to the exemption flag local is dominated by an atom that is "
+            "exactly reply-CC hasPublic() | hasMustRevalidate() | hasSMaxAge() (| hasNoCacheWithoutParameters(), the documented USE_HTTP_VIOLATIONS exemption backed by X1), "
+            "or a local whose every definition is exactly one such call")
+    allowed = {"HttpHdrCc::" + n for n in ("hasPublic", "hasMustRevalidate", "hasSMaxAge", "hasNoCacheWithoutParameters")}
+    defs = ck.local_defs(rr)
+
+    def exact_call(t):
+        t = E.strip(t)
+        return isinstance(t, dict) and t.get("k") == "call" and t.get("f") in allowed and of_reply(t)
+
+    def exact(t):
+        t = E.strip(t)
+        if exact_call(t):
+            return True
+        if isinstance(t, dict) and t.get("k") == "ref" and t.get("dk") in ("local", "static"):
+            ds = defs.get(t["d"], [])
+            return bool(ds) and all(exact_call(x) for x in ds)
+        return False
+
+    def sets_flag(ev):
+        if ev.get("e") == "decl":
+            return ev.get("d") in flags and ev.get("init") is not None and E.const(ev.get("init")) != 0
+        if ev.get("e") == "asg":
+            l = E.strip(ev.get("lhs"))
+            return isinstance(l, dict) and l.get("k") == "ref" and l.get("d") in flags and E.const(ev.get("rhs")) != 0
+        return False
+    for s in ck.sites(base, sets_flag, "<exemption flag> = true", 3):
+        true_atoms = [base.trees[f[1]] for f in s.facts if f[0] == "A" and f[2] is True]
+        good = [t for t in true_atoms if exact(t)]
+        if good:
+            ck.ok("S4x.exemption-exact", s.where(), "reusableReply: '%s' only under %s" % (s.desc(), E.key(good[0])))
+            continue
+        inexact = []
+        for t in true_atoms:
+            st = E.strip(t)
+            if isinstance(st, dict) and st.get("k") == "ref" and st.get("d") in defs and any("HttpHdrCc::" in m for m in ck.closure_mentions(rr, st)):
+                inexact.append("%s := %s" % (st["d"], " / ".join(E.key(x) for x in defs[st["d"]])))
+        ck.violation("S4x.exemption-exact", "S4x.exemption-exact|reusableReply|flag-set-without-exact-directive", s.where(),
+                     "reusableReply: '%s' is reachable without exactly one of hasPublic/hasMustRevalidate/hasSMaxAge established on every path; inexact guards: %s; "
+                     "facts here: %s (an authenticated response would be stored on another directive)"
+                     % (s.desc(), "; ".join(inexact) or "none", ", ".join(s.fact_keys())[:300]), base.witness(s))
 
     # ------------------------------------------------------------------ P: only the decision publishes
     ck.rule("P1 HttpStateData::haveParsedReplyHeaders switches on reusableReply(); under reuseNot/doNotCacheButShare no makePublic/cacheNegatively/setPublicKey "
@@ -152,9 +195,52 @@ def run(ck):
     # ------------------------------------------------------------------ X: the documented no-cache exemption is backed by forced revalidation
     ck.rule("X1 haveParsedReplyHeaders: RESPONSE(reply CC no-cache without parameters, or private -> EBIT_SET(entry->flags, ENTRY_REVALIDATE_ALWAYS))")
     always = ev_ebit_set("ENTRY_REVALIDATE_ALWAYS")
+    ck.sites(ck.flow(hp), always, "EBIT_SET(ENTRY_REVALIDATE_ALWAYS)", 1)
     for callee in ("HttpHdrCc::hasNoCacheWithoutParameters", "HttpHdrCc::hasPrivate"):
+        if not ck.trigger_edges(hp, ck.m_result_of(hp, callee), True, ("IfStmt", "BinaryOperator")):
+            ck.violation("X1.no-cache-revalidates", "X1|haveParsedReplyHeaders|%s|not-consulted" % callee, hp.where(),
+                         "haveParsedReplyHeaders sets ENTRY_REVALIDATE_ALWAYS but no branch depends on exactly reply CC %s() any more" % callee.split("::")[-1])
+            continue
         ck.require_response("X1.no-cache-revalidates", hp, ck.m_result_of(hp, callee), True, always, "EBIT_SET(ENTRY_REVALIDATE_ALWAYS)", term_kinds=("IfStmt", "BinaryOperator"),
                             why="(a stored no-cache/private response would be served without revalidation)")
+    # ------------------------------------------------------------------ D: the parser records every restrictive directive it recognises
+    ck.rule("D1 MUST-SET(HttpHdrCc::parse): from `case CC_PRIVATE|CC_NO_STORE|CC_MUST_REVALIDATE|CC_PROXY_REVALIDATE` of the switch over the directive type, every path "
+            "to the function's end passes setMask(<that type>, true) (directly, or through the directive's own inline setter called with true) - "
+            "a malformed or unexpected argument must not lose the restrictive bit")
+    cct = facts.enum("HttpHdrCcType")
+    cp = facts.fn("HttpHdrCc::parse")
+    sw = [b for b in cp.blocks.values() if b.get("term", {}).get("k") == "SwitchStmt"]
+    ck.need(len(sw) == 1, "C11: HttpHdrCc::parse no longer has exactly one switch")
+    swc = E.strip(sw[0]["term"]["c"])
+    ck.need(isinstance(swc, dict) and swc.get("k") == "ref" and swc.get("dk") == "local"
+            and all(E.m_calls("ccTypeByName")(d) or E.m_calls("HttpHdrCc::ccTypeByName")(d) for d in ck.local_defs(cp).get(swc["d"], [None])),
+            "C11: HttpHdrCc::parse no longer switches on a local defined by ccTypeByName()")
+    tvar = swc["d"]
+    setters = {"CC_PRIVATE": "HttpHdrCc::Private", "CC_NO_STORE": "HttpHdrCc::noStore", "CC_MUST_REVALIDATE": "HttpHdrCc::mustRevalidate",
+               "CC_PROXY_REVALIDATE": "HttpHdrCc::proxyRevalidate"}
+    for name, setter in sorted(setters.items()):
+        ck.need(name in cct, "C11: HttpHdrCcType::%s vanished" % name)
+        K = cct[name]
+        ck.need(any(c[0] == setter for c in facts.callers("HttpHdrCc::setMask")), "C11: %s no longer calls setMask()" % setter)
+        starts = [b["id"] for b in cp.blocks.values() if "case" in b and b["case"].get("v") == K]
+        ck.need(len(starts) == 1, "C11: HttpHdrCc::parse has no single `case %s`" % name)
+
+        def records(ev, K=K, setter=setter):
+            if ev.get("e") != "call":
+                return False
+            x = E.strip(ev.get("x"))
+            a = x.get("a", [])
+            if x.get("f") == "HttpHdrCc::setMask" and len(a) >= 1:
+                a0 = E.strip(a[0])
+                same = E.const(a0) == K or (isinstance(a0, dict) and a0.get("k") == "ref" and a0.get("d") == tvar)
+                return same and (len(a) < 2 or E.const(a[1]) == 1)   # newval defaults to true
+            if x.get("f") == setter:   # Private(const String &) sets unconditionally; the others take the new bool value
+                return setter == "HttpHdrCc::Private" or (len(a) == 1 and E.const(a[0]) == 1)
+            return False
+        fl = ck.flow(cp, start=starts[0], switch_assume=lambda cond, K=K: K if E.strip(cond).get("d") == tvar else None, markers={"recorded": records})
+        ck.require_passed("D1.directive-recorded", fl, lambda ev: ev.get("e") == "exit" and ev.get("kind") in ("ret", "fall"), "recorded", "end of parse() from case %s" % name,
+                          why="(a Cache-Control: %s directive with an unexpected argument would be forgotten and the response stored/served)" % name[3:].lower().replace("_", "-"))
+    ck.assume("the inline HttpHdrCc accessors (noStore(v)/hasNoStore() ...) are paired with their enumerator by name; their bodies (HttpHdrCc.h) get no CFG, only the call index is checked")
     ck.assume("default settings: refresh_pattern ignore-no-store/ignore-private/store-stale, Surrogate-Control processing (ignoreCacheControl), flags.ignoreCc and collapsed_forwarding are cut")
     ck.assume("documented exception (USE_HTTP_VIOLATIONS): an authenticated response with CC no-cache (no parameters) is stored, but X1 forces its revalidation on every hit")
     ck.assume("HttpHdrCc parsing of the directives (C29) and the end-to-end 'later request reaches the origin' are not decided; no-cache=\"fields\" is not part of C11")
